@@ -52,6 +52,34 @@ pub fn build(kind: Kind, with_chain: bool, dm: &[(&'static str, usize)], choice:
     if tweak > 0 { tx.gas = tx.gas.add(&Nat::from_u64(tweak * 1000)); if tx.gas >= Nat::pow2(256) { tx.gas = Nat::from_u64(tweak * 1000); } }
     (tx, key, spell, if devs.is_empty() { "template".into() } else { devs.join("+") })
 }
+/// transactions in which two fields coincide
+pub fn relations(kind: Kind, with_chain: bool) -> Vec<(String, Tx)> {
+    let base = txjson::template(kind, with_chain); let mut out: Vec<(String, Tx)> = Vec::new();
+    let nums: Vec<&str> = if kind == Kind::Eip1559 { vec!["nonce", "gas", "value", "maxPriorityFeePerGas", "maxFeePerGas"] } else { vec!["nonce", "gas", "value", "gasPrice"] };
+    let get = |t: &Tx, f: &str| -> Nat { match f { "nonce" => t.nonce.clone(), "gas" => t.gas.clone(), "value" => t.value.clone(), "gasPrice" => t.gas_price.clone(), "maxPriorityFeePerGas" => t.max_priority.clone(), _ => t.max_fee.clone() } };
+    let set = |t: &mut Tx, f: &str, v: Nat| { match f { "nonce" => t.nonce = v, "gas" => t.gas = v, "value" => t.value = v, "gasPrice" => t.gas_price = v, "maxPriorityFeePerGas" => t.max_priority = v, _ => t.max_fee = v } };
+    for f in &nums { for g in &nums { if f != g { let mut t = base.clone(); let v = get(&base, g); set(&mut t, f, v); out.push((format!("numeric-equal:{f}={g}"), t)); } }
+        if let Some(c) = &base.chain_id { let mut t = base.clone(); set(&mut t, f, c.clone()); out.push((format!("numeric-equals-chain-id:{f}"), t)); } }
+    let to = base.to.unwrap(); let signer = refmodel::eth::address_of_secret(&Curve::new(), &keys()[0]);
+    let mut t = base.clone(); t.to = Some(signer); out.push(("recipient-is-signer:".into(), t));
+    let mut t = base.clone(); t.data = to.to_vec(); out.push(("calldata-equals-recipient:".into(), t));
+    if kind != Kind::Legacy {
+        let word = |a: &[u8; 20]| { let mut w = [0u8; 32]; w[12..].copy_from_slice(a); w }; let k1 = [0x11u8; 32]; let k2 = word(&to); let other = [0xc1u8; 20];
+        for (who, addr) in [("recipient", to), ("signer", signer), ("zero-address", [0u8; 20])] {
+            for (nk, ks) in [(0, vec![]), (1, vec![k1]), (2, vec![k1, k2])] {
+                let mut t = base.clone(); t.access_list = vec![(addr, ks.clone())]; out.push((format!("access-list-entry-for-{who}:alone,{nk}-keys"), t));
+                let mut t = base.clone(); t.access_list = vec![(addr, ks.clone()), (other, vec![k1])]; out.push((format!("access-list-entry-for-{who}:first,{nk}-keys"), t));
+                let mut t = base.clone(); t.access_list = vec![(other, vec![]), (addr, ks.clone())]; out.push((format!("access-list-entry-for-{who}:last,{nk}-keys"), t));
+                let mut t = base.clone(); t.access_list = vec![(addr, ks.clone()), (addr, ks.clone())]; out.push((format!("access-list-entry-for-{who}:repeated,{nk}-keys"), t));
+            }
+        }
+        let mut t = base.clone(); t.access_list = vec![(other, vec![k1, k1])]; out.push(("access-list-repeated-key:".into(), t));
+        let mut t = base.clone(); let mut vw = [0u8; 32]; vw[31] = 4; t.access_list = vec![(other, vec![vw])]; out.push(("access-list-key-equals-value:".into(), t));
+        let mut t = base.clone(); t.data = k1.to_vec(); t.access_list = vec![(other, vec![k1])]; out.push(("calldata-equals-storage-key:".into(), t));
+        let mut t = base.clone(); t.to = None; t.access_list = vec![([0u8; 20], vec![])]; out.push(("creation-with-zero-address-entry:".into(), t));
+    }
+    out
+}
 pub fn kinds() -> [(Kind, bool, &'static str); 4] { [(Kind::Legacy, false, "legacy-nochain"), (Kind::Legacy, true, "legacy-eip155"), (Kind::Eip2930, true, "eip2930"), (Kind::Eip1559, true, "eip1559")] }
 
 pub fn run(ctx: &Ctx) {
@@ -102,5 +130,14 @@ pub fn run(ctx: &Ctx) {
         }
     });
     for (ki, (_, _, kname)) in kinds().iter().enumerate() { let (a, b) = (parity[ki][0].load(Ordering::Relaxed), parity[ki][1].load(Ordering::Relaxed)); ctx.guard_check(&format!("both parities for {kname}"), a > 0 && b > 0, format!("parity 0: {a}, parity 1: {b}")); }
+    crate::hist::histories(ctx, P, "transaction-histories", "Transaction from JSON, signing_message, sign, encode: a sequence on one fresh thread", crate::hist::tx_ops());
+    // relations BETWEEN fields: the template keeps all fields pairwise distinct, so what an implementation does when two
+    // fields coincide (an access-list entry for the recipient, equal fees, a value equal to the chain id ...) needs its own sweep
+    let rel: Vec<(Kind, bool, &'static str, Tx, String)> = kinds().into_iter().flat_map(|(kind, with_chain, kname)| relations(kind, with_chain).into_iter().map(move |(l, t)| (kind, with_chain, kname, t, l))).collect();
+    ctx.sweep("field-relations", "per kind: every ordered pair of numeric fields made equal, every numeric field equal to the chain id; access-list entries for the recipient / the signer / the zero address with 0, 1, 2 storage keys, alone, before and after another entry, and repeated; storage keys equal to the recipient word and to the value; calldata equal to the recipient bytes and to a storage key; recipient equal to the signer", rel.len() as u64, |i| {
+        let (_, _, kname, tx, label) = &rel[i as usize];
+        let text = txjson::tx_json(tx, Spell::Auto).reordered(i % 3).to_text();
+        expect_accept(ctx, P, "field-relations", i, &format!("{kname},relation={}", label.split(':').next().unwrap()), &text, tx, &keys()[0], &curve);
+    });
 }
 fn kind_label(k: Kind) -> &'static str { match k { Kind::Legacy => "legacy", Kind::Eip2930 => "eip2930", Kind::Eip1559 => "eip1559" } }
